@@ -49,11 +49,20 @@ static void setF(const int *d, vcase *c)
     c->n = c->m = 4; c->pat = (uint64_t)d[0] * 13 + 0x8421; c->pat &= 0xffff; c->pat |= 0x8421; /* keep the diagonal: structurally nonsingular */
     c->vals = VALS_B[d[1]]; c->colperm = 4; c->permid = d[2]; c->u = U_LIST[d[3]]; set_tune(c, TUNE_B[d[4]]); c->type = d[5]; c->nrhs = 1; c->rhs = 1;
 }
+static const int TM[] = { 2, 3, 3, 4, 4, 5, 5 }, TN[] = { 1, 1, 2, 2, 3, 2, 3 };
+static long tall_off[8]; static long tall_total(void) { long s = 0; for (int k = 0; k < 7; k++) { tall_off[k] = s; s += 1L << (TM[k] * TN[k]); } tall_off[7] = s; return s; }
+static void setT(const int *d, vcase *c)
+{
+    tall_total(); int k = 0; while (d[0] >= tall_off[k + 1]) k++;
+    c->m = TM[k]; c->n = TN[k]; c->pat = (uint64_t)(d[0] - tall_off[k]); c->vals = (int[]){ 1, 3, 7 }[d[1]]; c->colperm = (int[]){ 0, 3, 1 }[d[2]]; c->u = U_LIST[d[3]]; set_tune(c, (int[]){ 2, 3, 5 }[d[4]]); c->type = d[5]; c->aux = 1; c->permid = -1;
+}
+#define N_TALL (2 + 8 + 64 + 256 + 4096 + 1024 + 32768)
 static const family FAM_QUICK[] = {
     { "ALL(1..3) x V0-6 x colperm5 x u3 x sym2 x stor2 x tune3 x type4 x rhs2", 9, { N_ALL123, 7, 5, 3, 2, 2, 3, 4, 2 }, setA },
     { "ALL(4) x {V1,V3} x colperm{NAT,MMD_ATA,MMD_AT+A} x u{1,.1} x tune2 x stor2 x type4", 7, { N_ALL4, 2, 3, 2, 2, 2, 4 }, setB },
     { "DEV_1(BASE(6)) x V0-6 x colperm5 x u3 x sym2 x stor2 x tune9 x type4", 9, { 9, 37, 7, 5, 3, 2, 2, 9, 4 }, setC },
     { "MY_PERMC all 4! orders x 5041 patterns(diag kept) x {V1,V3} x u{1,.1} x tune2 x type4", 6, { 5041, 2, 24, 2, 2, 4 }, setF },
+    { "tall m x n (2x1,3x1,3x2,4x2,4x3,5x2,5x3, all patterns) through xgstrf x {V1,V3} x {NATURAL,COLAMD} x u{1,.1} x tune3 x type4 [C02/C03 only]", 6, { N_TALL, 2, 2, 2, 3, 4 }, setT },
 };
 static const family FAM_THOROUGH[] = {
     { "ALL(1..3) x V0-6 x colperm5 x u3 x sym2 x stor2 x tune3 x type4 x rhs2", 9, { N_ALL123, 7, 5, 3, 2, 2, 3, 4, 2 }, setA },
@@ -62,6 +71,7 @@ static const family FAM_THOROUGH[] = {
     { "MY_PERMC all 4! orders x 5041 patterns(diag kept) x {V1,V3} x u{1,.1} x tune2 x type4", 6, { 5041, 2, 24, 2, 2, 4 }, setF },
     { "DEV_1(BASE(8)) x V0-7 x colperm5 x u4 x sym2 x stor2 x tune9 x type4", 9, { 9, 65, 8, 5, 4, 2, 2, 9, 4 }, setD },
     { "ALL(4) x V0-7 x colperm5 x u4 x tune9 x stor2 x {d,z} x sym2", 8, { N_ALL4, 8, 5, 4, 9, 2, 2, 2 }, setE },
+    { "tall m x n (all patterns of 7 shapes) through xgstrf x {V1,V3,V7} x {NATURAL,COLAMD,MMD_ATA} x u3 x tune3 x type4 [C02/C03 only]", 6, { N_TALL, 3, 3, 3, 3, 4 }, setT },
 };
 /* other build variants: reduced products (vendor BLAS = the configuration the 24 tests run; 64-bit indices; sanitizers) */
 static void setAs(const int *d, vcase *c)   /* sanitizer builds: ALL(1..3) x {V1,V3} x colperm5 x u{1,.1} x sym2 x stor2 x tune{2,3,5} x type4 */
@@ -112,9 +122,41 @@ static int prep_LU(fs_run *R, vres *r)
     return 0;
 }
 
+
+/* ------------------------------------------------------------ tall matrices (m > n) through the factor routine */
+static void run_tall(const vcase *c, vres *r, int which)
+{
+    int m = c->m, n = c->n; const vf_type *T = vf_T(c->type);
+    if (pat_struct_rank(m, n, c->pat) < n) { r->status = 2; return; }
+    dmat A, Ld, Ud; make_values(T, m, n, c->pat, c->vals, &A); vf_sparse S; sp_from_dense(&S, T, &A, 0);
+    int pc[NMAX], pr[NMAX], et[NMAX]; superlu_options_t opt; vcase cc = *c; fill_options(&cc, &opt, pc, n);
+    SuperLUStat_t st; StatInit(&st); SuperMatrix AC, L, U; GlobalLU_t G; memset(&G, 0, sizeof G); int_t info = -9;
+    for (int i = 0; i < m; i++) pr[i] = -1;
+    get_perm_c(opt.ColPerm, &S.A, pc); sp_preorder(&opt, &S.A, pc, et, &AC);
+    T->gstrf(&opt, &AC, sp_ienv(2), sp_ienv(1), et, NULL, 0, pc, pr, &L, &U, &G, &st, &info);
+    r->outcome = fnv(fnv(0, &info, sizeof info), pc, sizeof(int) * n);
+    if (info == 0) {
+        r->nontrivial = 1; WK_COUNT(C_INFO0);
+        if (!is_perm(pr, m) || !is_perm(pc, n)) { wk_fail(r, "perm-not-bijection", "tall %dx%d: perm_r/perm_c not a bijection", m, n); goto done; }
+        verdict v; memset(&v, 0, sizeof v);
+        if (which == 3) { if (check_LU_structure(T, &L, &U, m, n, 0, &v)) wk_fail(r, "structure", "tall %dx%d: %s", m, n, v.msg); goto done; }
+        if (expand_L(T, &L, &Ld) || expand_U(T, &L, &U, &Ud)) { wk_fail(r, "structure", "tall: cannot expand factors"); goto done; }
+        if (check_LU_identity(T, &A, &Ld, &Ud, pr, pc, 16.0, &v)) { wk_fail(r, "lu-identity", "tall %dx%d: %s", m, n, v.msg); goto done; }
+        WK_RATIO(1, v.ratio);
+        double ratio = 0; long nd = 0;
+        if (o_pivoting(T, &A, &Ld, &Ud, pr, pc, c->u, 1, r, &ratio, &nd)) goto done;
+        WK_RATIO(2, ratio);
+    } else if (info > 0 && info <= n) { r->status = 2; WK_COUNT(C_SING); }
+    else wk_fail(r, "unexpected-info", "tall %dx%d: xgstrf info=%ld", m, n, (long)info);
+done:
+    if (info >= 0 && info <= n) { Destroy_SuperNode_Matrix(&L); Destroy_CompCol_Matrix(&U); }
+    Destroy_CompCol_Permuted(&AC); StatFree(&st); sp_destroy(&S);
+}
+
 /* ---------------------------------------------------------------------- C01 */
 static void run_C01(const vcase *c, vres *r)
 {
+    if (c->aux == 1) { r->status = 2; return; }     /* tall matrices have no driver: C02/C03 only */
     if (pat_struct_rank(c->n, c->n, c->pat) < c->n) { r->status = 2; return; }   /* never info=0: outside the premise (C04 judges these) */
     fs_run R; e1_gssv(c, &R); count_common(c, &R); r->outcome = R.outcome;
     if (R.info != 0) { r->status = 2; goto done; }
@@ -137,6 +179,7 @@ done:
 /* ---------------------------------------------------------------------- C02 */
 static void run_C02(const vcase *c, vres *r)
 {
+    if (c->aux == 1) { run_tall(c, r, 2); return; }
     if (pat_struct_rank(c->n, c->n, c->pat) < c->n) { r->status = 2; return; }   /* never info=0: outside the premise (C04 judges these) */
     fs_run R; e1_gssv(c, &R); count_common(c, &R); r->outcome = R.outcome;
     if (R.info != 0) { r->status = 2; goto done; }
@@ -160,6 +203,7 @@ done:
 /* ---------------------------------------------------------------------- C03 */
 static void run_C03(const vcase *c, vres *r)
 {
+    if (c->aux == 1) { run_tall(c, r, 3); return; }
     if (pat_struct_rank(c->n, c->n, c->pat) < c->n) { r->status = 2; return; }   /* never info=0: outside the premise (C04 judges these) */
     fs_run R; e1_gssv(c, &R); count_common(c, &R); r->outcome = R.outcome;
     if (R.info != 0) { r->status = 2; goto done; }
